@@ -26,33 +26,33 @@ BB = "svgdx::position::BoundingBox"
 
 
 def run(prog, chk):
-    author_wins(prog, chk)
+    chk.rule(author_wins, prog, chk)
     # border-before-rounding, rounding before every read, `mm` and scale only when neither size is given: all of it is
     # part of the values the evaluated site root-extent (A17) compares with the reference, case by case
-    non_contributors(prog, chk)
-    degenerate_boxes(prog, chk)
-    builder_accumulates(prog, chk)
-    path_subpath_start(prog, chk)
-    points_parity(prog, chk)
-    use_translation(prog, chk)
-    translation_before_clip(prog, chk)
-    clip_failure_modes(prog, chk)
-    clip_result_stored_whole(prog, chk)
+    chk.rule(non_contributors, prog, chk)
+    chk.rule(degenerate_boxes, prog, chk)
+    chk.rule(builder_accumulates, prog, chk)
+    chk.rule(path_subpath_start, prog, chk)
+    chk.rule(points_parity, prog, chk)
+    chk.rule(use_translation, prog, chk)
+    chk.rule(translation_before_clip, prog, chk)
+    chk.rule(clip_failure_modes, prog, chk)
+    chk.rule(clip_result_stored_whole, prog, chk)
     from props import C16
-    C16.extent_accumulation(prog, chk)  # repeated bodies: every rendered pass is counted in the extent
+    chk.rule(C16.extent_accumulation, prog, chk)  # repeated bodies: every rendered pass is counted in the extent
     from props import C10
-    C10.error_swallow(prog, chk)  # a clip-path / reference that cannot be parsed or resolved is an error, not "no clip"
-    C10.registration(prog, chk)  # an element placed against a target that is not resolved yet has no (or a wrong) box in the extent
+    chk.rule(C10.error_swallow, prog, chk)  # a clip-path / reference that cannot be parsed or resolved is an error, not "no clip"
+    chk.rule(C10.registration, prog, chk)  # an element placed against a target that is not resolved yet has no (or a wrong) box in the extent
     # the fold of a box through the transform list is decided by the evaluated site `transform-fold` (A17)
-    config_is_incremental(prog, chk)
+    chk.rule(config_is_incremental, prog, chk)
     from props import C07
-    C07.cli_config_mapping(prog, chk)  # border / scale given on the command line reach the configuration the extent is computed with
+    chk.rule(C07.cli_config_mapping, prog, chk)  # border / scale given on the command line reach the configuration the extent is computed with
     from props import geomalg
-    geomalg.check_sites(prog, chk, "C08")
-    geomalg.check_float_truncation(prog, chk)  # no float is cut down to an integer on the way (a truncated distance / coordinate makes different candidates tie)
-    geomalg.check(prog, chk, "C08", floor=27)
+    chk.rule(geomalg.check_sites, prog, chk, "C08")
+    chk.rule(geomalg.check_float_truncation, prog, chk)  # no float is cut down to an integer on the way (a truncated distance / coordinate makes different candidates tie)
+    chk.rule(geomalg.check, prog, chk, "C08", floor=27)
     from props import strops
-    strops.check_for(prog, chk, "C08")  # A14.str-ops: how this property's strings are cut up is a reviewed, frozen inventory
+    chk.rule(strops.check_for, prog, chk, "C08")  # A14.str-ops: how this property's strings are cut up is a reviewed, frozen inventory
 
 
 def _lit(body, t, i):
